@@ -352,6 +352,11 @@ func (sm *shardManagerImpl) initializeMemberlist() error {
 	return nil
 }
 
+// updateNodeTimeout bounds how long a shard change waits for its memberlist metadata broadcast. A zero timeout makes
+// UpdateNode wait without limit: if the last peer goes away while the update is queued, the broadcast never completes
+// and mlMutex stays write-locked for good (no announcement, join or shutdown can proceed).
+const updateNodeTimeout = 5 * time.Second
+
 func (sm *shardManagerImpl) Stop() {
 	sm.mutex.Lock()
 
@@ -495,7 +500,7 @@ func (sm *shardManagerImpl) RegisterShard(clientShardID history.ClusterShardID) 
 		go func() {
 			// Use mlMutex to serialize with getMembersSnapshot and other memberlist operations
 			sm.mlMutex.Lock()
-			err := ml.UpdateNode(0) // 0 timeout means immediate update
+			err := ml.UpdateNode(updateNodeTimeout) // never wait without limit while holding mlMutex (0 would)
 			sm.mlMutex.Unlock()
 			if err != nil {
 				sm.logger.Warn("Failed to update memberlist node metadata", tag.Error(err))
@@ -531,7 +536,7 @@ func (sm *shardManagerImpl) UnregisterShard(clientShardID history.ClusterShardID
 			go func() {
 				// Use mlMutex to serialize with getMembersSnapshot and other memberlist operations
 				sm.mlMutex.Lock()
-				err := ml.UpdateNode(0) // 0 timeout means immediate update
+				err := ml.UpdateNode(updateNodeTimeout) // see RegisterShard
 				sm.mlMutex.Unlock()
 				if err != nil {
 					sm.logger.Warn("Failed to update memberlist node metadata", tag.Error(err))
